@@ -152,6 +152,12 @@ func storeMachine(t *rapid.T, prop string, kind gen.StoreKind) {
 			if msg := u.partialForEach(k); msg != "" {
 				t.Fatalf("%s %s: %s", prop, kind, msg)
 			}
+			if rapid.IntRange(0, 2).Draw(t, "underflowprobe") == 0 {
+				if msg := u.partialUnderflowProbe(); msg != "" {
+					t.Fatalf("%s %s: %s", prop, kind, msg)
+				}
+				cl.label("partial-underflow-probe")
+			}
 		},
 		"": func(t *rapid.T) {
 			if msg := u.invariant(); msg != "" {
